@@ -68,5 +68,5 @@ def main():
          "not_applicable": na,
          "notes": "All verdicts come from behaviour recorded on a fresh build of /repo's working tree and judged by TLC; see DESIGN.md."}
     json.dump(m, open(os.path.join(V, "MANIFEST.json"), "w"), indent=1)
-HOOK_COMMITS = []
+HOOK_COMMITS = ["8428979"]
 main()
